@@ -243,8 +243,9 @@ class Container:
                iterated.
 
             short: `bool`, optional
-                If True then stop after the first element of either
-                *pre*, *body* or *post* is realised.
+                If True then only the first element of each iterable
+                of *pre*, of *body*, and of each iterable of *post* is
+                realised.
 
             kwargs: optional
                 Ignored.
@@ -260,19 +261,19 @@ class Container:
                 for x in it:
                     yield x
                     if short:
-                        return
+                        break
 
         for x in body:
             yield x
             if short:
-                return
+                break
 
         if post:
             for it in post:
                 for x in it:
                     yield x
                     if short:
-                        return
+                        break
 
     def _package(self):
         """Return the name of the package in which this class resides.
